@@ -31,6 +31,10 @@ PATTERNS = {
 }
 
 
+# Only these end a line, as when reading text files (universal newlines)
+_LINE_BREAK_RE = re.compile(r'\r\n|\r|\n')
+
+
 def _compile(*names: str) -> Pattern[str]:
     pat = '\n|'.join(f'(?P<{name}>{PATTERNS[name]})' for name in names)
     return re.compile(pat, flags=re.VERBOSE)
@@ -186,7 +190,7 @@ def lex(
         A :class:`TokenIterator` object
     """
     if isinstance(lines, str):
-        lines = lines.splitlines()
+        lines = _LINE_BREAK_RE.split(lines)
     if pattern is not None:
         if isinstance(pattern, str):
             regex = re.compile(pattern, flags=re.VERBOSE)
